@@ -379,6 +379,21 @@ class DB:
     def trait_impls(self, trait):
         return [i for i in self.impls if i.get("trait") == trait]
 
+    def impl_methods(self, trait, self_ty, method):
+        """fn ids of `method` in local impls of `trait` whose self type prints like `self_ty` (crate-relative or crate-qualified)."""
+        out = []
+        st = self_ty.lstrip("&")
+        for i in self.impls:
+            if i.get("trait") != trait:
+                continue
+            s1 = i["self"].lstrip("&")
+            cr = i["crate"].replace(".bin", "")
+            if st == s1 or st == cr + "::" + s1 or st.split("<")[0] == (cr + "::" + s1).split("<")[0] or st.split("<")[0] == s1.split("<")[0]:
+                m = i["methods"].get(method)
+                if m:
+                    out.append(strip_generics(m))
+        return out
+
     def closures_of(self, fn_id):
         if self._closures is None:
             self._closures = defaultdict(list)
@@ -404,6 +419,21 @@ class DB:
             out.add(strip_generics(p))
             for fa in t.fnargs:
                 out.add(strip_generics(fa))
+            # conversions that dispatch through a blanket impl in core: add the edge to the local impl
+            d = t.declared or ""
+            conv = None
+            if d.endswith("TryInto::try_into"):
+                conv = ("core::convert::TryFrom", "try_from", 1)
+            elif d.endswith("Into::into"):
+                conv = ("core::convert::From", "from", 1)
+            elif d.endswith("str::parse"):
+                conv = ("core::str::traits::FromStr", "from_str", 0)
+            elif d.endswith("ToString::to_string"):
+                conv = ("core::fmt::Display", "fmt", 0)
+            if conv and len(t.gen_args) > conv[2]:
+                target_ty = t.gen_args[conv[2]]
+                for m in self.impl_methods(conv[0], target_ty, conv[1]):
+                    out.add(m)
             if include_fn_operands:
                 for a in t.args:
                     v = a.const_value()
